@@ -14,8 +14,8 @@ def sh(cmd, **k):
 meta = dict(seed=sid, property=prop, checks_run=checks, at=time.strftime("%Y-%m-%d %H:%M"))
 diff = sh("git diff -- src", cwd=wt).stdout
 assert diff.strip(), "no change in worktree"
-r = sh("/venv/bin/python -m pytest -q -p no:cacheprovider --timeout=900 -q 2>&1 | tail -1", cwd=wt, env=env)
-meta["suite_with_change"] = r.stdout.strip()
+r = sh("/venv/bin/python -m pytest -q -p no:cacheprovider --timeout=900 2>&1 | tail -3", cwd=wt, env=env)
+meta["suite_with_change"] = ([l for l in r.stdout.strip().splitlines() if "passed" in l or "failed" in l or "error" in l] or ["?"])[-1].strip()
 r1 = sh("/venv/bin/python demo.py", cwd=wt, env=env)
 meta["demo_with_change_exit"] = r1.returncode
 meta["demo_with_change_output"] = (r1.stdout + r1.stderr)[-600:]
@@ -33,21 +33,28 @@ for f in ("demo.py", "NOTES.md"):
     if os.path.exists(os.path.join(wt, f)):
         shutil.copy(os.path.join(wt, f), os.path.join(out, f))
 results = {}
+via_wt = bool(os.environ.get("SEED_VIA_WORKTREE"))
+meta["applied_to"] = ("worktree %s via HASHSTORE_REPO" % wt) if via_wt else "/repo (git apply, restored afterwards)"
 if ok:
-    assert not sh("git status --porcelain -- src", cwd="/repo").stdout.strip(), "/repo not clean"
-    a = sh("git apply %s" % os.path.join(out, "patch.diff"), cwd="/repo")
-    assert a.returncode == 0, a.stderr
+    cenv = dict(os.environ)
+    if via_wt:
+        cenv["HASHSTORE_REPO"] = wt
+    else:
+        assert not sh("git status --porcelain -- src", cwd="/repo").stdout.strip(), "/repo not clean"
+        a = sh("git apply %s" % os.path.join(out, "patch.diff"), cwd="/repo")
+        assert a.returncode == 0, a.stderr
     try:
         for c in checks:
             t = time.time()
-            r = sh("./check %s --tier quick" % c, cwd=HERE)
+            r = sh("./check %s --tier %s" % (c, os.environ.get("SEED_TIER", "quick")), cwd=HERE, env=cenv)
             nv = r.stdout.count("VIOLATION property=")
             first = [l for l in r.stdout.splitlines() if l.startswith("  class:")][:2]
             results[c] = dict(exit=r.returncode, violations=nv, first_classes=[f.strip()[:300] for f in first],
                               wall_s=round(time.time() - t, 1), last=(r.stdout.strip().splitlines() or [""])[-1][:200])
             print(c, "exit", r.returncode, "violations", nv, first[:1])
     finally:
-        sh("git checkout -- .", cwd="/repo")
+        if not via_wt:
+            sh("git checkout -- .", cwd="/repo")
     assert not sh("git status --porcelain -- src", cwd="/repo").stdout.strip()
 meta["check_results"] = results
 meta["detected_by"] = [c for c, v in results.items() if v["exit"] == 1 and v["violations"] > 0]
